@@ -34,7 +34,7 @@ LEVEL_NOTE = ('Photometry from a finite alphabet; records are compared through t
 RULE = ("(a) cases: (line sequence chunk, configuration); one execution per data file, one evaluation per record. (b) a state is the canonical hash of everything handed to the calls "
         "(objects and file bytes); a transition is one post-processing call; non-trivial = distinct (configuration, sequence) of length >= 2 / data files with at least one ineligible line")
 ASSUMPTIONS = ["finite value alphabets", "output paths are always fresh (the library prompts before overwriting)"]
-REQUIRED_CLASSES = ['held-result-keeps-its-metadata', 'remove-resolved-after-a-default-call', 'ineligible-line-skipped', 'all-eligible', 'selector-cuts', 'without-model-fluxes', 'with-model-fluxes', 'mode-2d', 'mode-3d', 'format-v2', 'history-depth-2',
+REQUIRED_CLASSES = ['drawn-data-of-a-source-with-a-plot-only-point', 'line-repeating-the-numbers-of-the-previous-line-under-other-flags', 'held-result-keeps-its-metadata', 'remove-resolved-after-a-default-call', 'ineligible-line-skipped', 'all-eligible', 'selector-cuts', 'without-model-fluxes', 'with-model-fluxes', 'mode-2d', 'mode-3d', 'format-v2', 'history-depth-2',
                     'form-path', 'form-object', 'form-list', 'op-plot', 'op-filter_output', 'op-write_parameters', 'op-write_parameter_ranges', 'op-extract_parameters',
                     'nan-inf-record-roundtrip', 'longer-file', 'law-in-other-unit', 'op-plot_params_1d', 'op-plot_params_2d', 'op-plot-convolved', 'no-trailing-newline', 'selector-keeps-nothing', 'data-as-open-file', 'single-model-package', 'duplicate-source-names', 'record-without-fits-handed-on']
 TIMEOUT = {'quick': 900, 'thorough': 3600}
@@ -66,6 +66,8 @@ def setup(tier, seed):
     for n_src in (1, 3):
         for fname in ('plot_params_1d', 'plot_params_2d'):
             out.append({'part': 'b2', 'n_src': n_src, 'fname': fname})
+    for n_src in (1, 3, 5):
+        out.append({'part': 'b3', 'n_src': n_src})
     return {'tier': tier, 'seed': seed, 'cases': out}
 
 
@@ -86,6 +88,8 @@ def run_case(ctx, case, rec, d):
         return _part_b(ctx, case, rec, d)
     if case['part'] == 'b2':
         return _part_b2(ctx, case, rec, d)
+    if case['part'] == 'b3':
+        return _part_b3(ctx, case, rec, d)
     return _part_c(ctx, case, rec, d)
 
 
@@ -189,6 +193,17 @@ def _part_a(ctx, case, rec, d):
         lines = [_line('s%02d_%s' % ((i if (si % 3 or i == 0) else i - 1), kd) if si % 3 == 0 and False else (('s#%02d' if si % 4 == 1 else 's%02d') % (i // 2 if si % 3 == 0 else i)), kd, base, i, seed) for i, kd in enumerate(seq)]          # (a '#' is a character like any other in a name)
         if si % 3 == 0 and len(seq) >= 2:
             rec.cls('duplicate-source-names')
+        if si % 5 == 2:
+            # a line may carry exactly the numbers of the line before it under other flags (a catalogue that repeats a measurement as a limit, say)
+            for i in range(1, len(seq)):
+                if seq[i - 1] == 'A' and seq[i] != 'A':
+                    prev_ = Source.from_ascii(lines[i - 1])
+                    cur_ = Source.from_ascii(lines[i])
+                    cur_.valid = np.array(KINDS[seq[i]])
+                    cur_.flux = np.array(prev_.flux, float)
+                    cur_.error = np.array(prev_.error, float)
+                    lines[i] = cur_.to_ascii()
+                    rec.cls('line-repeating-the-numbers-of-the-previous-line-under-other-flags')
         srcs = [Source.from_ascii(l) for l in lines]
         elig = [s for s in srcs if sum(1 for v in s.valid if v in (1, 4)) >= cfg['n_data_min']]
         if not elig:
@@ -435,6 +450,67 @@ def _part_c(ctx, case, rec, d):
             rec.outcome(len(got))
             if [canon(g) for g in got] != written_c or canon([m.model_dir, m.filters, m.extinction_law]) != canon(list(meta)):
                 rec.violation('fitinfofile|roundtrip', {'kinds': list(seq)}, {'read': len(got), 'written': len(recs)})
+
+
+def _part_b3(ctx, case, rec, d):
+    """plot() writing files: what it draws for the DATA of each source (markers and error bars, recorded at matplotlib's Axes.scatter /
+    Axes.errorbar -- the plotting library, not the fitter) must not depend on whether the results come from the file or are the objects
+    the fitter returned (which have been through a fit, and may have been looked at since)."""
+    import matplotlib
+    matplotlib.use('Agg')
+    from matplotlib.axes import Axes
+    import sedfitter
+    seed = ctx['seed']
+    md, pk = pc.build(d, 'pkg', 'v2', 4, perm=[2, 0, 3, 1], n_cols=2, seed=seed)
+    fitter = pc.fitter_for(md)
+    srcs = pc.sources(pk, seed, n_sources=case['n_src'])
+    infos = pc.fit_all(fitter, srcs)
+    path = pc.write_file(os.path.join(d, 'b3.fitinfo'), infos)
+    if any(9 in fv for _, fv, _, _ in srcs):
+        rec.cls('drawn-data-of-a-source-with-a-plot-only-point')
+    drawn = {}
+    orig_sc, orig_eb = Axes.scatter, Axes.errorbar
+    for form in ('file', 'list', 'objects'):
+        calls = []
+
+        def sc(self, x, y, *a, **k):
+            calls.append(['scatter', np.asarray(x, float).ravel().tolist(), np.asarray(y, float).ravel().tolist(), str(k.get('marker')), str(k.get('facecolor'))])
+            return orig_sc(self, x, y, *a, **k)
+
+        def eb(self, x, y, *a, **k):
+            calls.append(['errorbar', np.asarray(x, float).ravel().tolist(), np.asarray(y, float).ravel().tolist(), np.asarray(k.get('yerr'), float).ravel().tolist()])
+            return orig_eb(self, x, y, *a, **k)
+        Axes.scatter, Axes.errorbar = sc, eb
+        try:
+            od = os.path.join(d, 'plots_' + form)
+            if form == 'objects':
+                for j_, i_ in enumerate(infos):
+                    sedfitter.plot(i_, output_dir=od + '_%d' % j_, select_format=('N', 1), format='png')
+            else:
+                sedfitter.plot(path if form == 'file' else infos, output_dir=od, select_format=('N', 1), format='png')
+        except Exception as e:
+            from mc.runner import exc_signature
+            rec.violation('post|plot-files|' + exc_signature(e), {'form': form}, {'type': type(e).__name__, 'msg': str(e)[:300]})
+            return
+        finally:
+            Axes.scatter, Axes.errorbar = orig_sc, orig_eb
+        rec.ev()
+        rec.trans()
+        drawn[form] = calls
+        rec.state(('b3', case['n_src'], form))
+        rec.nontriv(('b3', case['n_src'], form))
+    rec.trace()
+    rec.outcome(len(drawn['file']))
+    if not drawn['file']:
+        rec.violation('post|plot-files|nothing-drawn', {}, {'problem': 'no data point was drawn'})
+        return
+    for form in ('list', 'objects'):
+        if canon(drawn[form]) != canon(drawn['file']):
+            diff = next((i for i, (a_, b_) in enumerate(zip(drawn[form], drawn['file'])) if canon(a_) != canon(b_)), None)
+            rec.violation('post|plot-files|drawn-data-depends-on-form', {'form': form, 'n_src': case['n_src']},
+                          {'problem': 'the data points drawn for results passed as %s differ from those drawn for the same results read from the file' % form,
+                           'first_difference': None if diff is None else {'from_' + form: drawn[form][diff], 'from_file': drawn['file'][diff]}, 'n_calls': [len(drawn[form]), len(drawn['file'])]})
+
 
 
 def _part_b2(ctx, case, rec, d):
